@@ -1030,13 +1030,6 @@ example : ∃ g, mkGraph [[1, 2], [3, 4], [1, 1]] (.tuple ["x".toList, "y".toLis
       exact ⟨by decide, "y".toList, by decide⟩) (by decide) (by decide) (by decide)
   exact ⟨g, h1, h2⟩
 
-theorem sameLengths_of_all (m : Nat) : ∀ (cols : List (List Q)), (∀ c ∈ cols, c.length = m) → sameLengths cols = true
-  | [], _ => rfl
-  | c :: cs, h => by
-    simp only [sameLengths, List.all_eq_true, beq_iff_eq]
-    intro x hx
-    rw [h x (List.mem_cons_of_mem _ hx), h c List.mem_cons_self]
-
 /-- `hist_to_graph` is defined on every well-formed histogram for the three coordinate modes, any `make_value` with
 `k ≥ 0` values per bin and any valid naming of `dim + k` fields (`graph_valid_naming`), whatever the `scale` argument -/
 theorem hist_to_graph_defined (h : Hist) (wf : h.WF) (mv : Option (Q → List Q)) (mode : CoordMode) (hmode : mode ≠ .bad)
@@ -1102,5 +1095,123 @@ theorem csv_one_row_per_cell_2d (xs ys : List Q) (xLast yLast : Q) (vals : List 
       (cells (bins2d vals)).map (cellRow [xs ++ [xLast], ys ++ [yLast]]) := by
   have := rows2d_eq_cells ys xLast yLast vals [] xs hx hv
   simpa [bins2d, cells] using this
+
+/-! ## Adding graphs (`graph.__add__`)
+
+Not in the statement of C12; neighbouring "graph arithmetic".  The model shows what the code does: graphs without
+error fields are added point by point; a first operand *with* error fields is rejected by the constructor, although
+the docstring says "Error fields are ignored". -/
+
+/-- two constructed graphs without error fields, with the same number of coordinates and the same numbers of points
+in every coordinate, are added: the coordinates before the last are those of the first graph, the last ones are
+added point by point, the scale is the sum of the scales if both are known (unknown otherwise), the field names are
+those of the first graph -/
+theorem graph_add_spec (ca cb : List (List Q)) (fa fb : FieldNamesArg) (sa sb : Option Q) (a b : Graph)
+    (ha : mkGraph ca fa sa = .ok a) (hb : mkGraph cb fb sb = .ok b)
+    (hna : a.parsed = []) (hdim : a.dim = b.dim)
+    (hlen : ∀ i (h1 : i < ca.length) (h2 : i < cb.length), i < a.dim → ca[i].length = cb[i].length) :
+    ∃ g xa xb, graphAdd a b = .ok g ∧ ca[a.dim - 1]? = some xa ∧ cb[a.dim - 1]? = some xb ∧
+      g.coords = ca.take (a.dim - 1) ++ [List.zipWith (· + ·) xa xb] ∧ g.fieldNames = a.fieldNames ∧
+      g.dim = a.dim ∧
+      g.scale = (addScales sa sb) := by
+  obtain ⟨ia, hca, hsa, _, _, hsla, hda⟩ := mkGraph_inv ca fa sa a ha
+  obtain ⟨ib, hcb, hsb, _, _, _, _⟩ := mkGraph_inv cb fb sb b hb
+  obtain ⟨hpa, _⟩ := mkGraph_parse ca fa sa a ha
+  have hd0 : a.dim ≠ 0 := by have := ia.dim_pos; omega
+  -- without error fields the number of columns is the dimension
+  have hla : ca.length = a.dim := by
+    have := ia.dim_parsed; have := ia.names_len; simp [hna, hca] at *; omega
+  have hlb : a.dim ≤ cb.length := by
+    have := ib.dim_parsed; have := ib.names_len; simp [hcb] at *; omega
+  have hxa : ca[a.dim - 1]? = some (ca[a.dim - 1]'(by omega)) := List.getElem?_eq_getElem (by omega)
+  have hxb : cb[a.dim - 1]? = some (cb[a.dim - 1]'(by omega)) := List.getElem?_eq_getElem (by omega)
+  have hll : (ca[a.dim - 1]'(by omega)).length = (cb[a.dim - 1]'(by omega)).length :=
+    hlen (a.dim - 1) (by omega) (by omega) (by omega)
+  have hsame := sameCoordLengths_ok ca cb (a.dim - 1) (by omega) (by omega)
+    (fun i _ h1 h2 => hlen i h1 h2 (by omega))
+  -- the new columns have equal lengths
+  obtain ⟨c0, rest, hca0⟩ : ∃ c0 rest, ca = c0 :: rest := by
+    cases hc : ca with
+    | nil => rw [hc] at hla; simp at hla; exact absurd hla.symm hd0
+    | cons c0 rest => exact ⟨c0, rest, rfl⟩
+  · have hall : ∀ x ∈ ca, x.length = c0.length := by
+      intro x hx
+      rw [hca0] at hx hsla
+      rcases List.mem_cons.1 hx with rfl | hx
+      · rfl
+      · exact (sameLengths_iff rest c0).1 hsla x hx
+    have hnew : sameLengths (ca.take (a.dim - 1) ++ [List.zipWith (· + ·) (ca[a.dim - 1]'(by omega))
+        (cb[a.dim - 1]'(by omega))]) = true := by
+      apply sameLengths_of_all c0.length
+      intro x hx
+      rcases List.mem_append.1 hx with hx | hx
+      · exact hall x (List.mem_of_mem_take hx)
+      · simp at hx
+        subst hx
+        simp [← hll, hall _ (List.getElem_mem _)]
+    have hmk : ∃ g, mkGraph (ca.take (a.dim - 1) ++ [List.zipWith (· + ·) (ca[a.dim - 1]'(by omega))
+        (cb[a.dim - 1]'(by omega))]) (.tuple a.fieldNames)
+        (addScales sa sb) = .ok g ∧
+        g.coords = ca.take (a.dim - 1) ++ [List.zipWith (· + ·) (ca[a.dim - 1]'(by omega)) (cb[a.dim - 1]'(by omega))] ∧
+        g.fieldNames = a.fieldNames ∧ g.dim = a.dim ∧
+        g.scale = (addScales sa sb) := by
+      have hnl : a.fieldNames.length = (ca.take (a.dim - 1) ++ [List.zipWith (· + ·) (ca[a.dim - 1]'(by omega))
+          (cb[a.dim - 1]'(by omega))]).length := by
+        have := ia.names_len
+        simp [hca, hla] at this ⊢
+        omega
+      refine ⟨{ coords := _, fieldNames := a.fieldNames, scale := addScales sa sb, parsed := a.parsed,
+                dim := a.fieldNames.length - a.parsed.length }, ?_, rfl, rfl, ?_, rfl⟩
+      · simp only [mkGraph, fieldNamesTuple, bind, Except.bind, hnew, hnl, hda, hpa, pure, Except.pure]
+        simp
+      · have := ia.dim_parsed; simp [hna] at this ⊢; omega
+    obtain ⟨g, hg, g1, g2, g3, g4⟩ := hmk
+    refine ⟨g, _, _, ?_, hxa, hxb, g1, g2, g3, g4⟩
+    have hlt : ¬ ((cb[a.dim - 1]'(by omega)).length < (ca[a.dim - 1]'(by omega)).length) := by omega
+    have hxa' : a.coords[a.dim - 1]? = some (ca[a.dim - 1]'(by omega)) := by rw [hca]; exact hxa
+    have hxb' : b.coords[a.dim - 1]? = some (cb[a.dim - 1]'(by omega)) := by rw [hcb]; exact hxb
+    simp only [graphAdd, hdim.symm, hd0, ne_eq, not_true_eq_false, if_false, hca, hcb, hsame, bind, Except.bind,
+      Bool.not_true, Bool.false_eq_true, hxa, hxb, hlt, hsa, hsb]
+    exact hg
+
+/-- a first operand with error fields cannot be added (the constructor of the sum rejects the field names) -/
+theorem graph_add_error_fields (ca : List (List Q)) (fa : FieldNamesArg) (sa : Option Q) (a b g : Graph)
+    (ha : mkGraph ca fa sa = .ok a) (h : graphAdd a b = .ok g) : a.parsed = [] := by
+  obtain ⟨ia, hca, _, _, _, _, _⟩ := mkGraph_inv ca fa sa a ha
+  unfold graphAdd at h
+  by_cases h1 : a.dim ≠ b.dim
+  · simp [h1] at h
+  by_cases h2 : a.dim = 0
+  · simp [h2] at h
+  simp only [h1, h2, if_false, bind, Except.bind] at h
+  cases hs : sameCoordLengths a.coords b.coords (a.dim - 1) with
+  | error e => simp [hs] at h
+  | ok v =>
+    simp only [hs] at h
+    cases v with
+    | false => simp at h
+    | true =>
+      simp only [Bool.not_true, Bool.false_eq_true, if_false] at h
+      split at h
+      · rename_i xa xb hxa hxb
+        split at h
+        · simp at h
+        · obtain ⟨_, hco, _, hfn, _, _, _⟩ := mkGraph_inv _ _ _ _ h
+          obtain ⟨ig, _⟩ := mkGraph_inv _ _ _ _ h
+          have hl := ig.names_len
+          simp [fieldNamesTuple] at hfn
+          rw [hco, ← hfn] at hl
+          simp at hl
+          have := ia.dim_parsed
+          have hmin : min (a.dim - 1) a.coords.length + 1 ≤ a.dim := by omega
+          have : a.parsed.length = 0 := by omega
+          exact List.length_eq_zero_iff.1 this
+      · simp at h
+
+example : (do
+    let a ← mkGraph [[1, 2], [3, 4]] (.str "x,y".toList) (some 2)
+    let b ← mkGraph [[1, 2], [10, 20]] (.str "x,y".toList) (some 3)
+    graphAdd a b).toOption.map (fun (g : Graph) => (g.coords, g.scale)) = some ([[1, 2], [13, 24]], some 5) := by
+  decide +kernel
 
 end Lena.C12
